@@ -16,9 +16,6 @@ structure Field where
   orderOff : Int
   deriving Repr, DecidableEq
 
-def oFirst : Bytes := Bytes.ofString "first"
-def oFixed : Bytes := Bytes.ofString "fixed"
-
 structure FR where
   f : Field
   rest : Bytes
@@ -76,13 +73,13 @@ def parseProjection (cx : Ctx) (q : Bytes) : Except Err (List Field) :=
 /-- `makeProjection`'s rejections for one field (order first, then key) -/
 def checkField (f : Field) : Option Err :=
   let orderOK := f.order == oFixed || f.order == oFirst ||
-    f.order == Bytes.ofString "alpha" || f.order == Bytes.ofString "num"
+    f.order == oAlpha || f.order == oNum
   if f.order == oFixed && f.fixed.isEmpty then some ⟨f.orderOff, .unknownOrder⟩   -- literal name "fixed" (147e6a6)
   else if !orderOK then some ⟨f.orderOff, .unknownOrder⟩
-  else if f.key == Bytes.ofString ".config" then
+  else if f.key == kConfig then
     (if f.order == oFixed then some ⟨f.orderOff, .fixedConfig⟩ else none)
-  else if f.key == Bytes.ofString ".fullname" then none
-  else if f.key == Bytes.ofString ".unit" then some ⟨f.keyOff, .unitInProj⟩
+  else if f.key == kFullname then none
+  else if f.key == kUnit then some ⟨f.keyOff, .unitInProj⟩
   else if f.key.isEmpty then some ⟨f.keyOff, .emptyKey⟩
   else none
 
